@@ -2,7 +2,9 @@ package hx
 
 import (
 	"bytes"
+	"encoding/binary"
 	"fmt"
+	"hash/crc32"
 	"io"
 	"io/ioutil"
 	"math"
@@ -38,6 +40,7 @@ const (
 	OpDocsMatching = 15
 	OpStats        = 16
 	OpContains     = 17
+	OpFooter       = 20
 )
 
 const ErrMark = 4294967294
@@ -46,6 +49,16 @@ type MergeIn struct {
 	Slot     int      `json:"slot"`
 	Drops    []uint64 `json:"drops"`
 	DropsNil bool     `json:"drops_nil,omitempty"`
+	// Via: the deletions are given in the numbering of inputs of an earlier
+	// merge and are translated through that merge's DocumentNumbers() when
+	// the op runs (C17); the translated numbers replace Drops.
+	Via []ViaRef `json:"via,omitempty"`
+}
+
+type ViaRef struct {
+	MergeSlot int      `json:"merge_slot"`
+	Input     int      `json:"input"`
+	Orig      []uint64 `json:"orig"`
 }
 
 type IterOp struct {
@@ -88,6 +101,8 @@ type Op struct {
 	Visits []uint64 `json:"visits,omitempty"`
 	// docs matching
 	Terms []FT `json:"terms,omitempty"`
+	// footer check: the persisted bytes (filled in when the op runs)
+	File []byte `json:"file,omitempty"`
 }
 
 // Encode writes the op in the flat form parsed by Run.v (pop).
@@ -119,7 +134,12 @@ func (o *Op) Encode(w *W) {
 		w.Num(uint64(o.Slot))
 		w.Str(o.F)
 		w.Bytes(o.T)
-		w.Nums(o.Except)
+		if o.ExceptNil {
+			w.Num(0)
+		} else {
+			w.Num(1)
+			w.Nums(o.Except)
+		}
 		w.Bool(o.Flags[0])
 		w.Bool(o.Flags[1])
 		w.Bool(o.Flags[2])
@@ -171,6 +191,9 @@ func (o *Op) Encode(w *W) {
 		w.Num(uint64(o.Slot))
 		w.Str(o.F)
 		w.Bytes(o.T)
+	case OpFooter:
+		w.Num(uint64(o.Slot))
+		w.Bytes(o.File)
 	default:
 		panic("unknown op")
 	}
@@ -198,6 +221,8 @@ type Interp struct {
 	TmpDir  string
 	Segs    []segment.Segment
 	Bytes   [][]byte // persisted bytes of loaded/merged segments (nil for built)
+	Nums    map[int][][]uint64 // DocumentNumbers() of merged slots
+	Outs    []W                // per-op outputs of the last scenario
 	pls     map[int]segment.PostingsList
 	its     map[int]segment.PostingsIterator
 	rds     map[int]segment.DocumentValueReader
@@ -297,7 +322,21 @@ func (in *Interp) RunOp(o *Op) (out W) {
 	case OpMerge:
 		segs := make([]segment.Segment, len(o.Ins))
 		drops := make([]*roaring.Bitmap, len(o.Ins))
-		for i, mi := range o.Ins {
+		for i := range o.Ins {
+			mi := &o.Ins[i]
+			if len(mi.Via) > 0 {
+				mi.Drops = []uint64{}
+				mi.DropsNil = false
+				for _, v := range mi.Via {
+					tbl := in.Nums[v.MergeSlot][v.Input]
+					for _, d := range v.Orig {
+						if tbl[d] != math.MaxInt64 {
+							mi.Drops = append(mi.Drops, tbl[d])
+						}
+					}
+				}
+				mi.Via = nil
+			}
 			segs[i] = in.Segs[mi.Slot]
 			if !mi.DropsNil {
 				drops[i] = bitmapOf(mi.Drops)
@@ -329,6 +368,10 @@ func (in *Interp) RunOp(o *Op) (out W) {
 		}
 		in.Segs = append(in.Segs, seg)
 		in.Bytes = append(in.Bytes, b)
+		if in.Nums == nil {
+			in.Nums = map[int][][]uint64{}
+		}
+		in.Nums[len(in.Segs)-1] = nums
 		out.Num(uint64(len(nums)))
 		for _, s := range nums {
 			out.Nums(s)
@@ -437,6 +480,8 @@ func (in *Interp) RunOp(o *Op) (out W) {
 			return errOut(err)
 		}
 		out.Bool(ok)
+	case OpFooter:
+		return in.footerOp(o)
 	default:
 		panic("unknown op")
 	}
@@ -677,8 +722,10 @@ func (in *Interp) obsAll(seg segment.Segment) (out W) {
 // output preceded by its length), as Run.v run_ops produces it.
 func (in *Interp) RunScenario(ops []Op) W {
 	var out W
+	in.Outs = nil
 	for i := range ops {
 		o := in.RunOp(&ops[i])
+		in.Outs = append(in.Outs, o)
 		out.Num(uint64(len(o)))
 		out.Append(o)
 	}
@@ -716,4 +763,70 @@ func trimStack(st []byte) string {
 		keep = keep[:6]
 	}
 	return strings.Join(keep, "\n")
+}
+
+type footerAPI interface {
+	StoredIndexOffset() uint64
+	FieldsIndexOffset() uint64
+	DocValueOffset() uint64
+	ChunkMode() uint32
+	Version() uint32
+	NumDocs() uint64
+	CRC() uint32
+}
+
+// footerOp persists a segment, hands the bytes to the model (which parses the
+// footer and recomputes the CRC-32 over every preceding byte) and reports what
+// the loaded segment says about itself.  Go-side: the CRC is also recomputed
+// with hash/crc32 and a loaded segment must re-persist to the same bytes.
+func (in *Interp) footerOp(o *Op) (out W) {
+	seg := in.Segs[o.Slot]
+	b, err := in.Persist(seg)
+	if err != nil {
+		in.fail("C11", "WriteTo failed: %v", err)
+		return W{ErrMark, 1}
+	}
+	o.File = b
+	loaded, err := in.Impl.Load(segment.NewDataBytes(append([]byte(nil), b...)))
+	if err != nil {
+		in.fail("C11", "Load of persisted bytes failed: %v", err)
+		return W{ErrMark, 1}
+	}
+	if len(b) < 44 {
+		in.fail("C11", "file shorter than a footer: %d bytes", len(b))
+		return W{ErrMark, 1}
+	}
+	want := crc32.ChecksumIEEE(b[:len(b)-4])
+	got := binary.BigEndian.Uint32(b[len(b)-4:])
+	if want != got {
+		in.fail("C11", "footer CRC %08x does not cover the preceding %d bytes (crc32 = %08x)", got, len(b)-4, want)
+	}
+	b2, err := in.Persist(loaded)
+	if err != nil || !bytes.Equal(b, b2) {
+		in.fail("C11", "persisting the loaded segment again does not reproduce the file (err=%v, %d vs %d bytes)", err, len(b), len(b2))
+	}
+	fa, ok := loaded.(footerAPI)
+	if !ok {
+		in.fail("C11", "loaded segment does not expose footer accessors")
+		return W{ErrMark, 1}
+	}
+	if fa.CRC() != got {
+		in.fail("C11", "loaded segment reports CRC %08x, file ends in %08x", fa.CRC(), got)
+	}
+	out.Num(uint64(len(b)))
+	out.Num(loaded.Count())
+	out.Num(fa.StoredIndexOffset())
+	out.Num(fa.FieldsIndexOffset())
+	out.Num(fa.DocValueOffset())
+	out.Num(uint64(fa.ChunkMode()))
+	out.Num(uint64(fa.Version()))
+	out.Num(1) // the trailing CRC must cover every preceding byte (recomputed by the model)
+	if seg.Count() != loaded.Count() {
+		in.fail("C11", "footer document count %d differs from the segment's %d", loaded.Count(), seg.Count())
+	}
+	in.Touched["footer_checked"]++
+	if in.Bytes[o.Slot] != nil {
+		in.Touched["repersist_loaded"]++
+	}
+	return out
 }
